@@ -130,6 +130,22 @@ def check(run, ctx):
             continue
         for k, how, line, fn in kinds.kind_literals(repo, ctx.cg, m):
             _kind_verdict(run, Y3, g["typescript"], "typescript", m, k, how, line, fn, ANON_OK)
+    Y5 = run.rule("Y5", "an exemption the documentation grants by enclosing construct (a print inside `if __name__ == \"__main__\":`) is decided by testing every ancestor: a parent_map climb is left early only by acceptance", floor=1,
+                  decides="the documented acceptable example stays unreported wherever the guard stands (inside try/else, under a platform `if`, in a function), not only as a module-level statement")
+    n_y5 = 0
+    for f in sorted(repo.funcs.values(), key=lambda x: x.qual):
+        if not f.module.name.startswith("src.linters.") or f.parent is not None:
+            continue
+        for loop in [n for n in ast.walk(f.node) if isinstance(n, ast.While) and isinstance(n.test, ast.Compare) and len(n.test.ops) == 1 and isinstance(n.test.ops[0], ast.In)
+                     and "parent" in norm(n.test.comparators[0]) and isinstance(n.test.left, ast.Name)]:
+            n_y5 += 1
+            early = [x for x in ast.walk(loop) if isinstance(x, ast.Break) or (isinstance(x, ast.Return) and not (isinstance(x.value, ast.Constant) and x.value.value is True))]
+            sym = f.qual.replace("src.linters.", "", 1)
+            if early:
+                run.finding(Y5, sym, f"walk-cut:{norm(early[0])[:50]}", f"{f.qual}: the climb over enclosing nodes ends with `{norm(early[0])[:60]}` before every ancestor was tested: a `__main__` guard that is not itself the module-level statement (inside try/else, a platform `if`, a function) is not recognised, and the prints the documentation shows as acceptable are reported", f"{f.module.rel}:{early[0].lineno}")
+            else:
+                run.ok(Y5, sym, "every ancestor tested; only acceptance ends the climb")
+    run.require(n_y5 >= 1, "Y5: no parent_map climb found (positive control: print_statements.python_analyzer.is_in_main_block)")
     return __doc__
 
 
